@@ -29,6 +29,14 @@ def file_content(kind, who):
     raise ValueError(kind)
 
 
+# the specification's argmap names m1 / m2 / nofile are concretised to file stems; every third case uses stems that
+# contain dots and dashes (a name is a name: `-m v1.2` means the file v1.2.json)
+def concrete_map_name(m, idx):
+    if idx % 3 != 2 or m == "base":
+        return m
+    return {"m1": "rel.eu-west", "m2": "v1.2", "nofile": "ghost.x"}[m]
+
+
 def drive_case(bins, case, idx):
     cmds = ["build", "test"] if case["twocmds"] else ["build"]
     tpaths = ["svc", "svc2"]
@@ -63,7 +71,7 @@ def drive_case(bins, case, idx):
                 if idx % 4 == 2 and m == "base" and tp == "svc":
                     # a base argmap that takes long to parse next to tiny named ones (order must not depend on parse time)
                     on_disk["zz-unused-command"] = ["filler-%06d-%s" % (i, "x" * 40) for i in range(120000)]
-                with open(os.path.join(d, m + ".json"), "w") as f:
+                with open(os.path.join(d, concrete_map_name(m, idx) + ".json"), "w") as f:
                     json.dump(on_disk, f)
         candidates = {}
         for tp in tpaths:
@@ -93,7 +101,7 @@ def drive_case(bins, case, idx):
         args = ["run", "-c"] + cmds
         requested = list(case["requested"])
         if requested:
-            args += ["-m"] + requested
+            args += ["-m"] + [concrete_map_name(m, idx) for m in requested]
         if case["nobase"]:
             args.append("--no-base-argmaps")
         cli_args = []
